@@ -172,6 +172,23 @@ def st_case(draw):
         alt = [solid] + mid + [draw(st.sampled_from(nts))] + ([draw(st.sampled_from(g["terms"]))] if draw(st.booleans()) else [])
         if alt not in g["prods"][a]:
             g["prods"][a].insert(draw(st.integers(0, len(g["prods"][a]))), alt)
+    # two-alternative operator: P -> (nullable.., Q, t) | LATER where Q always consumes a token and LATER is either
+    # left-recursive (P t / nullable P t) or not (t P): what the search does after returning from Q decides the verdict on LATER
+    if len(nts) >= 2 and draw(st.integers(0, 3)) == 0:
+        a = draw(st.sampled_from(nts))
+        nullables = [b for b in nts if [] in g["prods"][b] and b != a]
+        q = draw(st.sampled_from([b for b in nts if b != a]))
+        if nullables and q not in nullables:
+            t = draw(st.sampled_from(g["terms"]))
+            g["prods"][q] = [[draw(st.sampled_from(g["terms"]))] + alt[1:] if alt else [draw(st.sampled_from(g["terms"]))]
+                             for alt in g["prods"][q]]
+            first = [draw(st.sampled_from(nullables)) for _ in range(draw(st.integers(1, 2)))] + [q, t]
+            later = draw(st.sampled_from([[a, t], [t, a], [draw(st.sampled_from(nullables)), a, t], [t, a, t]]))
+            alts = [x for x in g["prods"][a] if x not in (first, later)]
+            i = draw(st.integers(0, len(alts)))
+            alts.insert(i, first)
+            alts.insert(draw(st.integers(i + 1, len(alts))), later)
+            g["prods"][a] = alts
     for a in nts:
         d = []
         for alt in g["prods"][a]:
